@@ -166,6 +166,7 @@ func (m *Machine) reset(prefix []int) {
 	m.clock = 0
 	m.keySeq = 0
 	m.symLogs = nil
+	m.hashOrder = nil
 	m.rtypes = nil
 	m.timers = nil
 	m.path = &PathResult{}
